@@ -207,6 +207,7 @@ func runThorough(c *Ctx, repo, verifDir string) map[string]interface{} {
 			c.und("Tselfcheck", m.ID, "-", fmt.Sprintf("seeded variant applied and compiled but the expected obligation %q was not reported (%s): the rule no longer detects what it was built to detect", m.Expect, m.res.Lines))
 		case "skipped(no longer applies)":
 			skip++
+			fmt.Printf("STALE-VARIANT: %s (%s) no longer applies to the tree: port it (tools/mutants_src.py or seeded/…/patch.diff)\n", m.ID, c.Prop)
 			c.okT("Tselfcheck", m.ID, "-", "variant text no longer present in the tree: skipped")
 		default:
 			c.okT("Tselfcheck", m.ID, "-", "variant not usable on this tree ("+m.res.Status+"): skipped")
